@@ -724,7 +724,7 @@ pub fn gen(seed: u64, tier: &str) -> Vec<String> {
         };
         lines.push(format!("c02.d2 ser BE {}", d2.fields(true)));
     }
-    let (n_ser, n_img, n_raw) = if thorough { (60_000, 30_000, 6_000) } else { (2_500, 1_200, 400) };
+    let (n_ser, n_img, n_raw) = if thorough { (60_000, 30_000, 6_000) } else { (6_000, 3_000, 800) };
     for i in 0..n_ser {
         let max_cells = if i % 10 == 0 { 40 } else if i % 3 == 0 { 6 } else { 16 };
         let c = gen_content(&mut rng, max_cells, true);
@@ -746,9 +746,8 @@ pub fn gen(seed: u64, tier: &str) -> Vec<String> {
         let big = if rng.chance(1, 8) { !big } else { big };
         lines.push(format!("c01.r{:06} raw {} {}", i, end_tag(big), hex(&m)));
     }
-    if thorough {
-        exhaustive_small(&mut lines, &mut n);
-    }
+    // bounded-exhaustive small scopes (cheap: run in both tiers)
+    exhaustive_small(&mut lines, &mut n);
     lines
 }
 
